@@ -72,6 +72,10 @@ def nan_price_open():
     s = StrategyBase("s", children=["b"]); s.setup(d); s.adjust(100); s.update(idx[0]); s.allocate(10, "b"); s.update(idx[1])
 def dup_tickers():
     bt.Backtest(Strategy("s", []), pd.DataFrame([[1.0, 2.0]], columns=["a", "a"], index=idx[:1]))
+def dup_tickers_outside_the_roots_own():
+    # the root declares one ticker of its own; a sub-strategy without explicit children works on the whole frame, where another ticker comes twice
+    root = Strategy("s", [], children=[Strategy("sub", []), "c"])
+    bt.Backtest(root, pd.DataFrame([[1.0, 2.0, 3.0]], columns=["a", "a", "c"], index=idx[:1]))
 def zero_base():
     s = StrategyBase("s", children=["a"]); s.setup(d); s.update(idx[0]); s.children["a"]._position = 1.0; s.children["a"]._needupdate = True; s.root.stale = True; s.update(idx[1])
 def fi_under_mv():
@@ -83,9 +87,9 @@ def missing_coupons():
 def nan_coupon_open():
     c = pd.DataFrame({"a": [0.1, np.nan, 0.1]}, index=idx)
     s = FixedIncomeStrategy("s", [], children=[CouponPayingSecurity("a")]); s.setup(d, coupons=c); s.update(idx[0]); s.transact(5, "a"); s.update(idx[1])
-for nm, fn in [("zero price trade", zero_price), ("nan price trade", nan_price_trade), ("nan price on open position", nan_price_open), ("duplicate tickers", dup_tickers), ("return on zero base", zero_base),
+for nm, fn in [("zero price trade", zero_price), ("nan price trade", nan_price_trade), ("nan price on open position", nan_price_open), ("duplicate tickers", dup_tickers), ("duplicate tickers outside the root's own list", dup_tickers_outside_the_roots_own), ("return on zero base", zero_base),
                ("fixed-income child under market-value parent", fi_under_mv), ("custom price without bid/offer", custom_price_no_bidoffer), ("missing coupons", missing_coupons), ("nan coupon on open position", nan_coupon_open)]:
     expect_raise(nm, fn)
 print("JSON:" + json.dumps(dict(evaluations=evals, distinct=len(distinct) + 9, failures=sorted(fails, key=lambda f: 'finding' in f)[:5], samples=samples,
-      rule="random (scheduler, selector, weigher, commission, integer-positions, nested, security multiplier) stacks on random price paths with late listings; every report accessor finite; 9 ill-formed classes must raise; distinct = distinct configurations",
+      rule="random (scheduler, selector, weigher, commission, integer-positions, nested, security multiplier) stacks on random price paths with late listings; every report accessor finite; 10 ill-formed cases must raise; distinct = distinct configurations",
       bound="%d generated backtests (8-30 dates, 4 tickers) + 9 ill-formed cases" % N)))
